@@ -31,7 +31,7 @@ ASSUMPTIONS = [
     'not violated',
     'asynchronous generators are driven to exhaustion (all their gates are eventually released)',
 ]
-REQUIRED = {'scenarios': 1500, 'deliveries': 1500, 'scenarios_two_pending': 500, 'scenarios_plain_while_pending': 300, 'rx_scenarios': 200, 'rxlazy_scenarios': 200, 'rxgen_scenarios': 100,
+REQUIRED = {'scenarios': 1500, 'deliveries': 1500, 'scenarios_two_pending': 500, 'scenarios_plain_while_pending': 300, 'rx_scenarios': 200, 'rxlazy_scenarios': 200, 'rxgen_scenarios': 100, 'generator_tails_completed': 50,
             'faults_fired': 300}
 DEVMODE = False
 
@@ -125,6 +125,19 @@ def enumerate_scenarios(P):
                     continue
                 for watched in (False, True):
                     out.append(dict(target='rxgen', n=n, run_between=rb, order=order, watched=watched))
+    # ... and generators that still await something after their last item (closing a connection, say): a third gate per
+    # evaluation that yields nothing
+    # evaluation: a third gate that yields nothing. Here assignments and completions interleave freely (an evaluation may
+    # have delivered all its items, and be in its tail, when the next assignment comes)
+    for n in (1, 2):
+        items = [('A', i) for i in range(n)] + [(i, j) for i in range(n) for j in range(3)]
+        for order in itertools.permutations(items):
+            pos = {x: k for k, x in enumerate(order)}
+            if any(pos[('A', i)] > pos[('A', i + 1)] for i in range(n - 1)) or \
+                    any(pos[('A', i)] > pos[(i, 0)] or pos[(i, 0)] > pos[(i, 1)] or pos[(i, 1)] > pos[(i, 2)] for i in range(n)):
+                continue
+            for watched in (False, True):
+                out.append(dict(target='rxgen', n=n, run_between=(), order=order, watched=watched, tail=True))
     # lazily evaluated pipeline (no watcher forces re-evaluation) with a root and a non-root input
     for n in range(1, tier_n + 1):
         for ins in itertools.product(['root', 'arg'], repeat=n):
@@ -379,7 +392,7 @@ async def run_rxgen(sc, rep):
     param = _st['param']
     loop = asyncio.get_running_loop()
     n = sc['n']
-    gates = {(i, j): loop.create_future() for i in range(n) for j in range(2)}
+    gates = {(i, j): loop.create_future() for i in range(n) for j in range(3 if sc.get('tail') else 2)}
     root = param.rx(-1)
 
     async def agen(v):
@@ -388,6 +401,9 @@ async def run_rxgen(sc, rep):
             return
         yield await gates[(v, 0)]
         yield await gates[(v, 1)]
+        if sc.get('tail'):
+            await gates[(v, 2)]
+            rep.count('generator_tails_completed')
     expr = root.rx.pipe(agen)
     seen = []
     if sc['watched']:
@@ -396,12 +412,19 @@ async def run_rxgen(sc, rep):
     await turns(6)
     desc = {k: (list(v) if isinstance(v, tuple) else v) for k, v in sc.items()}
     for i in range(n):
+        if sc.get('tail'):
+            break
         root.rx.value = i
         outcome_value(expr)
         if i < n - 1 and sc['run_between'][i]:
             await turns()
     await turns()
     for g in sc['order']:
+        if g[0] == 'A':
+            root.rx.value = g[1]
+            outcome_value(expr)
+            await turns()
+            continue
         if not gates[g].done():
             gates[g].set_result(('res',) + g)
         await turns()
